@@ -1,4 +1,5 @@
 import OapiVerif.Model.Enums
+import OapiVerif.Proofs.EnumClash
 /-!
 C11 — Enum constants are complete and carry the exact specification values.
 
@@ -6,6 +7,9 @@ Model: Model/Enums.lean (`SanitizeEnumNames`, the `%q` rendering and the Go lexe
 Ties (harness c11): CORR — `codegen.SanitizeEnumNames` vs `sanitizeEnumNames`, `strconv.Quote`/`Unquote` vs
 `quoteGo`/`unquoteGo`; RUN — the generated file type-checked with go/types: the multiset of value sets of the
 generated enum types equals the multiset of distinct-value sets of the document's enum schemas.
+Model/EnumClash.lean: `GenerateEnums`' choice of the enums whose constants get the type name as prefix (one pass =
+the code before the repair, `resolveFix` = the repeated pass); CORR — the constant blocks `GenerateEnums` renders for
+seeded enum/type name sets vs `resolveFix`.
 -/
 namespace OapiVerif.Enums
 open OapiVerif.Names
@@ -322,3 +326,77 @@ example : sanitizeEnumNames asciiUni [] [w "foo1", w "Foo", w "foo"] =
 example : ∀ b ∈ w "a\\tb\"\n", b < 256 := by decide
 
 end OapiVerif.Enums
+
+namespace OapiVerif.Props.C11
+open OapiVerif.EnumClash
+
+/-! ### `GenerateEnums`: which enums are prefixed (Model/EnumClash.lean) -/
+
+/-- One pass only ever raises flags: same enums, same order, same names. -/
+theorem C11_pass_keeps_enums (uc : Str → Str) (types : List Str) (l : List E) :
+    (resolve uc types l).map (fun e => (e.ty, e.names)) = l.map (fun e => (e.ty, e.names)) := by
+  have h := resolve_le uc types l
+  generalize resolve uc types l = l' at h
+  induction h with
+  | nil => rfl
+  | cons hab _ ih => simp [hab.1, hab.2.1, ih]
+
+/-- After one pass (the code before the repair), two enums that both stay unprefixed share no constant name … -/
+theorem C11_unprefixed_enums_share_no_name (uc : Str → Str) (types : List Str) (l : List E) :
+    (resolve uc types l).Pairwise fun a b => a.pre = false → b.pre = false → ∀ k, k ∈ a.names → k ∉ b.names :=
+  outerN_pairwise uc types l.length l (Nat.le_refl _)
+
+/-- … and an unprefixed enum has no constant called like a type of the package, its own type included. -/
+theorem C11_unprefixed_enum_avoids_type_names (uc : Str → Str) (types : List Str) (l : List E) :
+    ∀ e ∈ resolve uc types l, e.pre = false → (∀ t ∈ types, t ∉ e.names) ∧ e.ty ∉ e.names := by
+  intro e he hp
+  have h := outerN_mem_unprefixed uc types l.length l (Nat.le_refl _) e he hp
+  refine ⟨?_, h.2⟩
+  intro t ht hmem
+  have : tyClash types e = true := by
+    simp only [tyClash, List.any_eq_true]
+    exact ⟨t, ht, by simpa using hmem⟩
+  simp [h.1] at this
+
+/-- The repaired code repeats the pass until nothing changes; `length + 1` passes are enough. -/
+theorem C11_resolveFix_is_fixpoint (uc : Str → Str) (types : List Str) (l : List E) :
+    resolve uc types (resolveFix uc types l) = resolveFix uc types l :=
+  iter_reaches_fixpoint uc types l.length l (cnt_le_length l)
+
+theorem length_iter_resolve (uc : Str → Str) (types : List Str) (n : Nat) (l : List E) :
+    (iter (resolve uc types) n l).length = l.length := by
+  induction n generalizing l with
+  | zero => rfl
+  | succ n ih => simp only [iter]; rw [ih]; exact (resolve_le uc types l).length_eq.symm
+
+/-- **Constants of different enums.** In the final flags, the constant names two enums emit (`GetValues`, prefix
+applied) intersect only if both enums are prefixed: every clash that involves an unprefixed enum is resolved. -/
+theorem C11_clash_only_between_prefixed (uc : Str → Str) (types : List Str) (l : List E) :
+    (resolveFix uc types l).Pairwise fun a b => clash uc a b = true → a.pre = true ∧ b.pre = true := by
+  have hfix := C11_resolveFix_is_fixpoint uc types l
+  unfold resolve at hfix
+  exact outerN_fix_pairwise uc types _ _ (Nat.le_refl _) hfix
+
+/-- and an unprefixed enum has no constant called like a type (the fixpoint is the result of a pass). -/
+theorem C11_final_unprefixed_avoids_type_names (uc : Str → Str) (types : List Str) (l : List E) :
+    ∀ e ∈ resolveFix uc types l, e.pre = false → (∀ t ∈ types, t ∉ e.names) ∧ e.ty ∉ e.names := by
+  intro e he
+  rw [← C11_resolveFix_is_fixpoint uc types l] at he
+  exact C11_unprefixed_enum_avoids_type_names uc types _ e he
+
+def wS (s : String) : Str := s.toList.map Char.toNat
+
+/-- Non-vacuity and the pre-repair defect: enum `Abc [ZedX]` before `Zed [X]`, `Zee [X]`. One pass prefixes
+Zed and Zee — after `Abc` has been compared with them — and `ZedX` is declared twice; the repeated pass prefixes
+`Abc` as well. (Replayed on the code: known-findings.txt.) -/
+theorem C11_single_pass_witness :
+    let l := [E.mk (wS "Abc") [wS "ZedX"] false, E.mk (wS "Zed") [wS "X"] false, E.mk (wS "Zee") [wS "X"] false]
+    constants id (resolve id [] l) = [wS "ZedX", wS "ZedX", wS "ZeeX"] ∧
+    constants id (resolveFix id [] l) = [wS "AbcZedX", wS "ZedX", wS "ZeeX"] := by decide
+
+/-- What prefixing cannot resolve: two prefixed enums whose type names overlap (`AB`+`C` = `A`+`BC`). -/
+theorem C11_prefixed_clash_witness :
+    let l := [E.mk (wS "A") [wS "BC", wS "x"] false, E.mk (wS "AB") [wS "C", wS "x"] false]
+    constants id (resolveFix id [] l) = [wS "ABC", wS "Ax", wS "ABC", wS "ABx"] := by decide
+
+end OapiVerif.Props.C11
